@@ -299,7 +299,8 @@ def run(ctx):
     wit = {sig: fl[0] for sig, fl in seen.items()}
     again = _validate(ctx, [w["vector"] for w in wit.values()], "repro", count=False)
     for sig, w in sorted(wit.items()):
-        if not [a for a in again if a["sig"] == sig and a["vector"] == w["vector"]]:
+        fam = (lambda x: "nondet-or-disagree" if x.split("@")[0] in ("unstable", "agree_api", "agree_cu", "agree_addon", "agree_block") else x)
+        if not [a for a in again if a["vector"] == w["vector"] and (a["sig"] == sig or ((w["out"].get("unstable") or a["out"].get("unstable")) and fam(a["sig"]) == fam(sig)))]:
             if sig.startswith("hang@"):
                 ctx.notes.append("hang not reproduced (timing): %s" % json.dumps(w["vector"]))
                 continue
